@@ -79,6 +79,7 @@ StepLoad ==
 
 \* what every completed, in-contract call is checked for besides its own result
 After(t, S) ==
+  /\ V("OUTCOME", ~Has("obspanic") /\ ~Has("rdout"), "a look-up made right after the call (observation sweep / read through the returned handle) panicked")
   /\ (hasSnap => /\ Structure(T', peak', cap0)
                  /\ V("REFINE", Refines(T', S, t), <<"live physical entries differ from the reference at", t>>))
   /\ (~hasSnap /\ Has("obs") => V("REFINE", ObsSet = Visible(S, t), <<"observed", ObsSet, "expected", Visible(S, t)>>))
